@@ -22,7 +22,7 @@ from vlib.memogen import AUTH_ZERO, ZERO_CODES
 PID = "C22"
 RULE = ("cases: 1-2 valid memos (4 zero codes x base64/base2 headers x sizes x signer incl. one unknown to the receiver) + "
         "0-6 mutations of their grams (byte flip at a generated offset, truncation, code swap over the 10 codes, gram number "
-        "rewrite incl. >= count, invalid base64 char, invalid UTF-8 in the body, body / signature alteration, and grams correctly signed by ANOTHER signer for the victim's memo id with any of the ten codes and any gram number) + 0-3 arbitrary "
+        "rewrite incl. >= count, invalid base64 char, invalid UTF-8 in the body, body / signature alteration, and grams correctly signed by ANOTHER signer for the victim's memo id with any of the ten codes and any gram number, or a COMPLETE memo so signed for the same memo id whose text may be invalid UTF-8, delivered before the victim's memo) + 0-3 arbitrary "
         "byte strings, delivered in a generated order with receive servicing every k datagrams, authic on or off; non-trivial "
         "= at least one mutated copy of a valid gram (not just random bytes) was delivered and got past the code lookup (its "
         "first 4 characters / 3 bytes are a defined gram code); distinct = canonical hash")
@@ -181,6 +181,24 @@ def run_case(case):
         if not grams:
             break
         g, src, _mut, curt = grams[m[1] % len(grams)]
+        if m[2][0] == "forgememo":
+            # a COMPLETE memo (zeroth gram announcing the count + the other grams) made and correctly signed by another
+            # party for the victim's memo id; bodies may be invalid UTF-8, so that the receiver completes and drops it
+            _k, sure, bodies, who = m[2]
+            zi, ni = (6, 7) if sure else (2, 3)
+            parts = [forge(g, curt, ["forge", zi, len(bodies), bytes(bodies[0]), who], forger)]
+            parts += [forge(g, curt, ["forge", ni, i, bytes(bodies[i]), who], forger) for i in range(1, len(bodies))]
+            if any(p is None for p in parts):
+                continue
+            forged = True
+            r.labels.append("forged-complete-memo-for-the-same-id")
+            if who % 6 != 5:
+                for b in bodies:
+                    signed.setdefault(memogen.signer_at(who)[0], set()).add(bytes(b))
+            for p in parts:
+                pool.append((p, src if m[0] else "evil", True, curt))
+            past_lookup = True
+            continue
         if m[2][0] == "forge":
             mg = forge(g, curt, m[2], forger)
             if mg is None:
@@ -293,14 +311,36 @@ def _forgery_strategy():
                                   "signer": st.sampled_from([1, 1, 4]), "text": text})
     fg = st.tuples(st.just("forge"), st.sampled_from([9, 9, 9, 2, 6, 2, 6, 3, 7, 8, 0, 1, 4, 5]), st.integers(0, 3),
                    st.binary(min_size=1, max_size=8).map(lambda b: b"EVIL" + b), st.sampled_from([0, 2, 3, 0, 2, 5, 5])).map(list)
-    muts = st.lists(st.tuples(st.booleans(), st.integers(0, 5), fg).map(list), min_size=1, max_size=3)
+    fbody = st.one_of(st.sampled_from([b"\xff", b"PAY \xfe", b"\xc3", b"EVIL"]), st.binary(min_size=1, max_size=6),
+                      st.text("abc ", min_size=1, max_size=8).map(lambda t: t.encode()))
+    fm = st.tuples(st.just("forgememo"), st.booleans(), st.lists(fbody, min_size=1, max_size=3),
+                   st.sampled_from([0, 2, 3, 0, 2, 5, 4])).map(list)
+    muts = st.lists(st.tuples(st.booleans(), st.integers(0, 5), st.one_of(fg, fg, fm)).map(list), min_size=1, max_size=3)
     return st.fixed_dictionaries({"authic": st.just(True), "memos": st.lists(memo, min_size=1, max_size=1), "muts": muts,
                                   "raw": st.just([]), "order": st.just([]),
                                   "order_mode": st.sampled_from(["zeroth-mutants-rest", "zeroth-mutants-rest", "mutants-first"]),
                                   "svc_every": st.sampled_from([1, 2, 1000])})
 
 
+def _dropped_memo_strategy():
+    """A complete, correctly signed memo of another party that the receiver must drop (its text is not valid UTF-8) arrives
+    first under a memo id; then the victim's memo arrives under the very same id.  Nothing of the dropped memo may
+    survive into what is delivered for the victim."""
+    text = st.text("abcdefgh ", min_size=20, max_size=120)
+    memo = st.fixed_dictionaries({"code": st.sampled_from([1, 3]), "curt": st.booleans(), "extra": st.integers(0, 30),
+                                  "signer": st.sampled_from([1, 4, 0]), "text": text})
+    bad = st.sampled_from([b"\xff", b"PAY MALLORY \xfe", b"\xc3", b"\xe2\x82"])
+    good = st.text("abc ", min_size=1, max_size=8).map(lambda t: t.encode())
+    bodies = st.lists(st.one_of(bad, good), min_size=1, max_size=4).filter(lambda bs: any(b[-1] >= 0x80 or b[0] >= 0x80 for b in bs))
+    fm = st.tuples(st.just("forgememo"), st.booleans(), bodies, st.sampled_from([0, 2, 3, 5])).map(list)
+    muts = st.lists(st.tuples(st.booleans(), st.integers(0, 5), fm).map(list), min_size=1, max_size=2)
+    return st.fixed_dictionaries({"authic": st.just(True), "memos": st.lists(memo, min_size=1, max_size=1), "muts": muts,
+                                  "raw": st.just([]), "order": st.just([]), "order_mode": st.just("mutants-first"),
+                                  "svc_every": st.sampled_from([1, 1, 3, 1000])})
+
+
 def searches(tier):
     q = tier == "quick"
     return [("datagrams", _strategy(), 2500 if q else 30000),
-            ("forgeries", _forgery_strategy(), 1500 if q else 12000)]
+            ("forgeries", _forgery_strategy(), 1500 if q else 12000),
+            ("dropped-memo-then-same-id", _dropped_memo_strategy(), 500 if q else 6000)]
